@@ -70,7 +70,10 @@ enum { /* fault kinds */
     F_NONE = 0,
     F_EINTR = 1,       /* benign: call fails once with EINTR */
     F_SHORT = 2,       /* benign: read/write transfers at most arg (>=1) bytes */
-    F_ERRNO = 3        /* failing: call fails with errno = arg */
+    F_ERRNO = 3,       /* failing: call fails with errno = arg */
+    F_EOF = 4          /* the file was truncated by someone else after it was
+                          stat'ed: this and every later read on the descriptor
+                          returns 0 */
 };
 
 struct sim_event {
@@ -113,8 +116,9 @@ static struct {
     int nlog;
     uint64_t log_dropped;
     uint32_t fd_hash[MAX_FD]; /* 0 = untracked, else path hash | 1 */
+    uint8_t fd_eof[MAX_FD];   /* sticky EOF injected on this descriptor */
     struct dirstate dirs[MAX_DIRS];
-    uint64_t faults_fired[4];
+    uint64_t faults_fired[5];
     uint64_t pid_reads, tty_reads, dirs_permuted;
     char exit_log[PATH_MAX];
 } G = { .tty = 2 };
@@ -241,9 +245,19 @@ static uint32_t tracked_fd(int fd)
 }
 
 /* Allocates the next event number and returns the planned fault for it. */
+/* A program that spins on I/O (e.g. a read loop that never sees its byte
+ * count) crosses this seam on every iteration: a budget of events is a
+ * deterministic detector for it. */
+#define EVENT_BUDGET 3000000ULL
+
 static struct plan_entry *next_event(uint64_t *seq)
 {
     *seq = G.event_seq++;
+    if (G.event_seq > EVENT_BUDGET) {
+        static const char msg[] = "simlibc: I/O event budget exceeded (spinning on I/O)\n";
+        if (REAL(write)) REAL(write)(2, msg, sizeof msg - 1);
+        _exit(99);
+    }
     for (int i = 0; i < G.nplan; i++)
         if (G.plan[i].ev == *seq && !G.plan[i].fired) return &G.plan[i];
     return NULL;
@@ -264,7 +278,7 @@ static void log_event(uint64_t seq, int op, int fault, int err, long ret, uint32
 static void fired(struct plan_entry *f)
 {
     f->fired = 1;
-    if (f->kind >= 0 && f->kind < 4) G.faults_fired[f->kind]++;
+    if (f->kind >= 0 && f->kind < 5) G.faults_fired[f->kind]++;
 }
 
 /* A fault that makes the call fail without performing it.  Returns 1 and sets
@@ -290,6 +304,7 @@ static void do_reset(void)
     G.nlog = 0;
     G.log_dropped = 0;
     memset(G.fd_hash, 0, sizeof G.fd_hash);
+    memset(G.fd_eof, 0, sizeof G.fd_eof);
     memset(G.faults_fired, 0, sizeof G.faults_fired);
     G.pid_reads = G.tty_reads = G.dirs_permuted = 0;
 }
@@ -334,11 +349,12 @@ long verif_shim_ctl(int cmd, uint64_t a, uint64_t b, void *p)
         o[0] = G.rand_calls; o[1] = G.clock_reads; o[2] = G.event_seq;
         o[3] = G.faults_fired[F_EINTR]; o[4] = G.faults_fired[F_SHORT];
         o[5] = G.faults_fired[F_ERRNO]; o[6] = G.log_dropped;
+        o[11] = G.faults_fired[F_EOF];
         o[7] = G.pid_reads; o[8] = G.tty_reads; o[9] = G.dirs_permuted;
         o[10] = (uint64_t)G.nlog;
         return 0;
     }
-    case CMD_VERSION: return 3;
+    case CMD_VERSION: return 4;
     case CMD_RESET_RAND: G.rand_calls = 0; return 0;
     }
     return -1;
@@ -525,6 +541,14 @@ ssize_t read(int fd, void *buf, size_t count)
         errno = err;
         return -1;
     }
+    if (f && f->kind == F_EOF) {
+        fired(f);
+        G.fd_eof[fd] = 1;
+    }
+    if (G.fd_eof[fd]) {
+        log_event(seq, OP_READ, F_EOF, 0, 0, ph);
+        return 0;
+    }
     if (f && f->kind == F_SHORT && count > (size_t)(f->arg < 1 ? 1 : f->arg)) {
         count = (size_t)(f->arg < 1 ? 1 : f->arg);
         fired(f);
@@ -587,6 +611,7 @@ int close(int fd)
     int r = REAL(close)(fd);
     int e = errno;
     G.fd_hash[fd] = 0;
+    G.fd_eof[fd] = 0;
     if (f && f->kind == F_ERRNO) {
         fired(f);
         log_event(seq, OP_CLOSE, F_ERRNO, f->arg, -1, ph);
